@@ -99,11 +99,17 @@ impl Number {
 
             // Work around a bug in pretty_dtoa: it panics if a number is rounded up while all
             // of its digits are removed by `max_decimal_digits` (e.g. 0.7 with zero decimal
-            // digits). Rounding numbers below 1 beforehand avoids this situation.
+            // digits). Rounding numbers below 1 beforehand avoids this situation. The rounded
+            // value is read back from its decimal form, because `rounded / scale` can end up
+            // just below `rounded × 10^-digits` (e.g. 1e-70 with 70 digits) and would then be
+            // rounded up again.
             let number = match config.max_decimal_digits {
                 Some(digits) if number.abs() < 1.0 => {
                     let scale = 10.0_f64.powi(digits as i32);
-                    (number * scale).round() / scale
+                    let rounded = (number * scale).round();
+                    format!("{rounded}e-{digits}")
+                        .parse()
+                        .unwrap_or(rounded / scale)
                 }
                 _ => number,
             };
